@@ -63,6 +63,11 @@ class FilePart(Part):
                         for nfiles in (1, 3):
                             out.append({"B": B, "networks": nets, "prefixes": pref, "salt": salt,
                                         "nfiles": nfiles, "dump_state": "absent" if (B + nfiles) % 2 else "stale"})
+        # the same map at every log verbosity
+        for B in (0, 8):
+            for lvl in ("DEBUG", "INFO", "WARNING", "ERROR", "CRITICAL"):
+                out.append({"B": B, "networks": None, "prefixes": None, "salt": "saltForTest", "nfiles": 3,
+                            "dump_state": "absent", "loglevel": lvl})
         return out
 
     def _tokens(self):
@@ -112,7 +117,11 @@ class FilePart(Part):
                 # the map path already holds the map of an earlier run (other salt, other addresses)
                 with open(os.path.join(root, "map.txt"), "w") as f:
                     f.write("10.1.2.3\t10.99.99.99\n11.22.33.44\t11.19.80.44\n2001:db8::1\t2001:db8::ffff\n")
-            with seams.capture_logs():
+            import logging
+
+            if cfg.get("loglevel"):
+                argv += ["-l", cfg["loglevel"]]
+            with seams.capture_logs(getattr(logging, cfg.get("loglevel", "INFO"))):
                 main(argv)
             try:
                 with open(os.path.join(root, "map.txt")) as f:
